@@ -253,10 +253,10 @@ Proof.
     + left. apply upd_other. congruence.
     + intros k. split; [|apply upd_other; congruence]. intros ->. eexists. split; [exact Hr|].
       cbn [andb]. apply absinv_forget. exact Hinv.
-  - exists s. cbn [step_ok step_partial]. repeat split; try assumption; try (left; reflexivity).
-    intros _. exists s. split; assumption.
-  - exists s. cbn [step_ok step_partial]. repeat split; try assumption; try (left; reflexivity).
-    intros _. exists s. split; assumption.
+  - exists s. cbn [step_ok step_partial]. split; [exact Hat|]. split; [exact Hinv|]. split; [left; reflexivity|].
+    intros k. split; [|reflexivity]. intros _. exists s. split; assumption.
+  - exists s. cbn [step_ok step_partial]. split; [exact Hat|]. split; [exact Hinv|]. split; [left; reflexivity|].
+    intros k. split; [|reflexivity]. intros _. exists s. split; assumption.
   - apply andb_true_iff in Hat. destruct Hat as [Hat Hr]. apply andb_true_iff in Hat. destruct Hat as [Ha Hb].
     apply neqb_neq in Ha.
     eexists. split; [exact Hr|]. cbn [step_ok step_partial op_abort]. split; [|split].
